@@ -172,6 +172,9 @@ func classifyMapRange(c *Ctx, mr mapRange) (reason string, how string) {
 					return true
 				}
 			}
+			if cal := calleeFunc(call, info); cal != nil && pureModuleFunc(c, cal, 2) {
+				return true // a helper of the module that only computes a value from its arguments
+			}
 			why = "calls " + exprKey(call.Fun) + ", which may raise, write or consume shared state: which element it runs on first depends on map order"
 			return false
 		})
@@ -476,4 +479,95 @@ func totalOrderSort(call *ast.CallExpr, cal *types.Func, info *types.Info) bool 
 		return isElem(be.X) && isElem(be.Y)
 	}
 	return false
+}
+
+// pureModuleFunc: fn is a function of the module whose body only computes a value from its arguments: no
+// store outside its own locals, no send, go or defer, and no call other than conversions, a few builtins,
+// String()/Error(), the pure library packages, or (to the given depth) other such functions.
+func pureModuleFunc(c *Ctx, fn *types.Func, depth int) bool {
+	if fn == nil || fn.Pkg() == nil || depth < 0 {
+		return false
+	}
+	rel, ok := relOf(fn.Pkg())
+	if !ok {
+		return false
+	}
+	p := c.Pkgs[rel]
+	if p == nil {
+		return false
+	}
+	info := p.TypesInfo
+	var fd *ast.FuncDecl
+	for _, d := range c.allFuncDecls(rel) {
+		if info.Defs[d.Name] == types.Object(fn) {
+			fd = d
+		}
+	}
+	if fd == nil {
+		return false
+	}
+	pure := true
+	local := func(e ast.Expr) bool {
+		id := rootIdent(e)
+		if id == nil {
+			return false
+		}
+		o := info.Uses[id]
+		if o == nil {
+			o = info.Defs[id]
+		}
+		if o == nil {
+			return id.Name == "_"
+		}
+		if _, isIdent := ast.Unparen(e).(*ast.Ident); !isIdent {
+			return false // a store through a local (field, element) may reach shared memory
+		}
+		return o.Pos() >= fd.Pos() && o.Pos() <= fd.End()
+	}
+	ast.Inspect(fd.Body, func(x ast.Node) bool {
+		if !pure {
+			return false
+		}
+		switch n := x.(type) {
+		case *ast.GoStmt, *ast.DeferStmt, *ast.SendStmt, *ast.FuncLit:
+			pure = false
+		case *ast.AssignStmt:
+			for _, l := range n.Lhs {
+				if !local(l) {
+					pure = false
+				}
+			}
+		case *ast.IncDecStmt:
+			if !local(n.X) {
+				pure = false
+			}
+		case *ast.CallExpr:
+			if tv, ok := info.Types[n.Fun]; ok && tv.IsType() {
+				return true
+			}
+			if id, ok := n.Fun.(*ast.Ident); ok {
+				if _, ok := info.Uses[id].(*types.Builtin); ok {
+					switch id.Name {
+					case "len", "cap", "make", "new", "append", "string", "min", "max":
+						return true
+					}
+					pure = false
+					return false
+				}
+			}
+			if se, ok := n.Fun.(*ast.SelectorExpr); ok && len(n.Args) == 0 && (se.Sel.Name == "String" || se.Sel.Name == "Error") {
+				return true
+			}
+			cal := calleeFunc(n, info)
+			if cal != nil && cal.Pkg() != nil && (pureCallPkgs[cal.Pkg().Path()] || pureCallPkgs[cal.Pkg().Path()+"."+cal.Name()]) {
+				return true
+			}
+			if cal != nil && cal != fn && pureModuleFunc(c, cal, depth-1) {
+				return true
+			}
+			pure = false
+		}
+		return pure
+	})
+	return pure
 }
